@@ -238,7 +238,7 @@ example : ∃ V : CMat Int, V 3 1 = ofReal 3 * ⟨1, 1⟩ ∧ V 3 2 = ofReal 4 *
     rightMix V (blkM 3 (-4) ⟨0, 1⟩) 1 2 3 1 = 0 :=
   ⟨fun i j => if i = 3 ∧ j = 1 then ⟨3, 3⟩ else if i = 3 ∧ j = 2 then ⟨4, 4⟩ else 0, by decide, by decide, by decide⟩
 /-- the exact runner takes the swap branch on the 2×2 exchange matrix -/
-example : (runExact false 2 (fun i j => if i + j = 1 then (1 : Cx Int) else 0) (rectSchedule 2)).map (·.1)
+example : (runExact false 2 (tabulate 2 fun i j => if i + j = 1 then (1 : Cx Int) else 0) (rectSchedule 2)).map (·.1)
     = some [Branch.swap] := by decide
 
 /-- a pattern that is kept and one that is destroyed by a column mix -/
